@@ -107,12 +107,109 @@ let model_W variant toks =
   | VFault (f, k, h) -> Printf.sprintf "%s %d tr=%s" (fault_name f) (int_of_nat k) (trace_str h)
   | VNoFuel k -> Printf.sprintf "NOFUEL %d" (int_of_nat k)
 
+(* ---- T: copy-out ---------------------------------------------------------------------- *)
+let bytes_of_hex s =
+  if s = "-" then [] else
+  List.init (String.length s / 2) (fun i -> z_of_int (int_of_string ("0x" ^ String.sub s (2 * i) 2)))
+let hex_of_bytes l =
+  if l = [] then "-" else String.concat "" (List.map (fun z -> Printf.sprintf "%02x" (int_of_z z)) l)
+let fresh_buf n = List.init n (fun _ -> z_of_int 0xAA)
+
+let model_T asis toks =
+  match toks with
+  | ["c"; _; _; len; slice] ->
+    (match get_span_text asis (CText (bytes_of_hex slice)) (fresh_buf (int_of_string len)) with
+     | Some (r, b) -> Printf.sprintf "OK %d %s" (int_of_z r) (hex_of_bytes b)
+     | None -> "OOB 0 tr=-")
+  | ["s"; _; _; len; slice] ->
+    (match get_span_call asis (CText (bytes_of_hex slice)) (fresh_buf (int_of_string len)) with
+     | Some ((r, il), b) -> Printf.sprintf "OK %d %d %s" (int_of_z r) (int_of_z il) (hex_of_bytes b)
+     | None -> "OOB 0 tr=-")
+  | ["l"; len; g] | ["h"; _; len; g] ->
+    (match get_span_text asis (CGlyph (bytes_of_hex g)) (fresh_buf (int_of_string len)) with
+     | Some (r, b) -> Printf.sprintf "OK %d %s" (int_of_z r) (hex_of_bytes b)
+     | None -> "OOB 0 tr=-")
+  | ["e"; len] | ["k"; len] ->
+    (match get_span_text asis CEmpty (fresh_buf (int_of_string len)) with
+     | Some (r, b) -> Printf.sprintf "OK %d %s" (int_of_z r) (hex_of_bytes b)
+     | None -> "OOB 0 tr=-")
+  | ["n"; _; _; slice] ->
+    (* buffer == NULL: the length is returned and nothing can be written *)
+    Printf.sprintf "OK %d -" (List.length (bytes_of_hex slice))
+  | ["m"; _; _; _; len; cells] ->
+    let cells = List.map bytes_of_hex (String.split_on_char ',' cells) in
+    (match mock_display_text cells (fresh_buf (int_of_string len)) with
+     | Some (r, b) -> Printf.sprintf "OK %d %s" (int_of_z r) (hex_of_bytes b)
+     | None -> "OOB 0 tr=-")
+  | _ -> "ERR T"
+
+(* ---- O: other object kinds ------------------------------------------------------------ *)
+let obj i = pos_of_idx i
+let parse_oop (s : string) : oop =
+  if s = "-" then ObUse [] else
+  if String.length s >= 2 && s.[1] = '+' then
+    (match s.[0] with
+     | 'K' -> ObNew ([obj (int_of_string (String.sub s 2 (String.length s - 2)))], [])
+     | _ -> ObNew ([], []))
+  else if String.length s >= 2 && s.[0] = 'P' && s.[1] = 'c' then
+    ObNew ([], [obj (int_of_string (String.sub s 2 (String.length s - 2)))])
+  else
+    let args = String.split_on_char '.' (rest s) in
+    let i = obj (int_of_string (List.hd args)) in
+    match s.[0] with
+    | 'r' -> ObRef i
+    | 'u' -> ObUnref i
+    | 'y' | 'p' | 'h' | 'f' | 'b' -> ObUse [i; obj (int_of_string (List.nth args 1))]
+    | _ -> ObUse [i]
+
+let model_O toks =
+  match o_run fuel (List.map parse_oop toks) with
+  | OVOk leak -> Printf.sprintf "OK leak=%d" (if leak then 1 else 0)
+  | OVFault k -> Printf.sprintf "UAF %d tr=-" (int_of_nat k)
+  | OVNoFuel k -> Printf.sprintf "NOFUEL %d" (int_of_nat k)
+
 let model variant line =
   match split_ws line with
   | "W" :: toks -> model_W variant toks
+  | "T" :: toks -> model_T variant.v_destroy_asis toks
+  | "O" :: toks -> model_O toks
   | _ -> "ERR kind"
 
-let oracle line = "OK"
+(* ---- oracle: "<case> | <impl observation>" --------------------------------------------- *)
+let strip_detail o =
+  match String.index_opt o '#' with Some i -> String.trim (String.sub o 0 i) | None -> String.trim o
+let field name toks =
+  let pre = name ^ "=" in
+  let n = String.length pre in
+  List.fold_left (fun acc t -> if String.length t >= n && String.sub t 0 n = pre
+                                then Some (String.sub t n (String.length t - n)) else acc) None toks
+let rec take n l = if n <= 0 then [] else match l with [] -> [] | x :: t -> x :: take (n - 1) t
+
+let oracle line =
+  match String.index_opt line '|' with
+  | None -> "BAD no-observation"
+  | Some bar ->
+    let case = String.trim (String.sub line 0 bar) in
+    let obs = strip_detail (String.sub line (bar + 1) (String.length line - bar - 1)) in
+    let otoks = split_ws obs in
+    let completed = (match otoks with "OK" :: _ -> true | _ -> false) && not (List.mem "UNINIT" otoks) in
+    let leak = field "leak" otoks = Some "1" in
+    (match split_ws case with
+     | "W" :: _ ->
+       (match field "tr" otoks with
+        | None -> "BAD no-trace"
+        | Some tr ->
+          let ops = if tr = "-" then [] else
+              List.map (fun t -> if t.[0] = 'b' then OBind (pos_of_idx (int_of_string (rest t)), true, Z0, false, [])
+                         else parse_op t) (String.split_on_char ',' tr) in
+          if oracle_W ops completed leak then "OK" else "BAD well-formed client, implementation: " ^ obs)
+     | "O" :: toks ->
+       let ops = List.map parse_oop toks in
+       let ops = if completed then ops else
+           (match otoks with _ :: k :: _ -> take (int_of_string k + 1) ops | _ -> ops) in
+       if oracle_O ops completed leak then "OK" else "BAD well-formed client, implementation: " ^ obs
+     | "T" :: _ -> if oracle_T completed then "OK" else "BAD wrote beyond the length given: " ^ obs
+     | _ -> "BAD kind")
 
 let () =
   let mode = if Array.length Sys.argv > 1 then Sys.argv.(1) else "model" in
@@ -120,4 +217,5 @@ let () =
     | "oracle" -> oracle
     | "model-pinned" -> model pinned
     | _ -> model fixed in
-  iter_lines (fun l -> print_endline (try f l with Failure m -> "ERR " ^ m | Not_found -> "ERR notfound"))
+  iter_lines (fun l -> print_endline (try f l with Failure m -> "ERR " ^ m | Not_found -> "ERR notfound"
+                                               | Invalid_argument m -> "ERR " ^ m))
